@@ -105,12 +105,17 @@ func isLeaf(fn *ssa.Function) bool {
 // arrvalMin: scalar arrays at least this long are loaded as one window value (see load).
 var arrvalMin = int64(1 << 30)
 
+// arrvalDefault is the process-wide setting (GOCV_ARRWIN); a contract's `arraywindows` flag lowers the
+// threshold to 16 for that function's verification conditions only.
+var arrvalDefault = int64(1 << 30)
+
 func init() {
 	if v := os.Getenv("GOCV_ARRWIN"); v != "" {
 		var n int64
 		fmt.Sscan(v, &n)
 		if n > 0 {
 			arrvalMin = n
+			arrvalDefault = n
 		}
 	}
 }
